@@ -150,6 +150,20 @@ CHECKS["C10"] = dict(
          "is covered.  PARTIAL: stdout buffering, file-system errors, thread scheduling are outside the model.",
     design="§6 C10", technique="Lean 4 proof about the print_model transcription + byte-level correspondence + command-line differential search")
 
+CHECKS["C15"] = dict(
+    text="Theorems (Lean 4): every Python exception is a value in the model, RuntimeError apart from the internal kinds, and each "
+         "assert / attribute read on None / list index of the transcribed code has an explicit failure branch.  Proved: "
+         "create_number, create_symbol, create_atom and the n-fold prefix never end in an internal error on any theory term; "
+         "create_formula does not on any term gringo's parser can produce with the #theory tel body table (gringoOK: operator names "
+         "only with table arities) — the final assert of the operator chain, Previous(None,…) of unary sequence operators and "
+         "args[-1] on [] are unreachable; the test part of path expressions; __get_param for every name and flag combination; the "
+         "loop and option parsers (C08).  All are total Lean definitions (no input loops).  PARTIAL: create_path / "
+         "create_dynamic_formula / head create_formula / TheoryParser.parse are modelled with their failure branches and compared "
+         "with the implementation incl. error classes on near-valid inputs, but without no-internal-error theorems; the AST "
+         "rewriting is covered by the near-valid search on the real code (in-process exception types, time limit, command line: "
+         "PANIC / non-RuntimeError traceback / status 0 on rejection).",
+    design="§6 C15", technique="Lean 4 proof (internal-error branches unreachable under the parser's arity contract; partial) + error-class correspondence + near-valid grammar search")
+
 NOT_YET = {}
 
 def main():
